@@ -1121,6 +1121,12 @@ func (driverContextInsertion) isActionable(_ stateTableDriver, entry tables.AATS
 	return entry.Flags&(miCurrentInsertCount|miMarkedInsertCount) != 0 && (current != 0xFFFF || marked != 0xFFFF)
 }
 
+// exceedsMaxLen returns true if inserting [count] glyphs would grow the buffer
+// beyond its length budget (pathological fonts); upstream fails the allocation in that case.
+func (driverContextInsertion) exceedsMaxLen(buffer *Buffer, count int) bool {
+	return len(buffer.outInfo)+len(buffer.Info)-buffer.idx+count > buffer.maxLen
+}
+
 func (dc *driverContextInsertion) transition(driver stateTableDriver, entry tables.AATStateEntry) {
 	buffer := driver.buffer
 	flags := entry.Flags
@@ -1131,6 +1137,9 @@ func (dc *driverContextInsertion) transition(driver stateTableDriver, entry tabl
 		count := int(flags & miMarkedInsertCount)
 		buffer.maxOps -= count
 		if buffer.maxOps <= 0 {
+			return
+		}
+		if dc.exceedsMaxLen(buffer, count) {
 			return
 		}
 		start := markedInsertIndex
@@ -1167,6 +1176,9 @@ func (dc *driverContextInsertion) transition(driver stateTableDriver, entry tabl
 			return
 		}
 		buffer.maxOps -= count
+		if dc.exceedsMaxLen(buffer, count) {
+			return
+		}
 		start := currentInsertIndex
 		glyphs := dc.insertionAction[start:]
 
